@@ -57,6 +57,8 @@ pub proof fn lemma_sums_of_linear_data(x: Seq<R>, y: Seq<R>, al: real, be: real,
 }
 // the callback of the curve fitting routines: a pure function of (x, parameters)
 pub uninterp spec fn MF(x: real, p: Seq<real>) -> real;
+// the analytic gradient callback of curve_fit_jac
+pub uninterp spec fn MJ(x: real, p: Seq<real>) -> Seq<real>;
 pub open spec fn pv(p: Seq<R>) -> Seq<real> { Seq::new(p.len(), |i: int| p[i]@) }
 ''' + NORMAL.verus_stub() + EXACT.verus_stub() + FD.verus_stub())
     im = u.impl(PFILE, "Polynomial<N>", header="impl Polynomial")
@@ -104,10 +106,26 @@ pub open spec fn pv(p: Seq<R>) -> Seq<real> { Seq::new(p.len(), |i: int| p[i]@) 
     g.hint("after: params[col] += h", "proof { assert(pv(params@) =~= p0.update(c0, p0[c0] + h@)); }")
     g.hint("after: #2 params[col] -= h", "proof { assert(pv(params@) =~= p0.update(c0, p0[c0] - h@)); }")
     g.hint("loop 2 end", "proof { assert(pv(params@) =~= p0); assert(denom@ == 1real / (2real * h@)); }")
+    # the analytic Jacobian of curve_fit_jac: row r is the user's gradient at x_r, for EVERY data point
+    a = u.fn(OFILE, "jac_analytic")
+    a.opt(index_assign=("mat",))
+    a.req("old(params)@.len() == V", "old(mat).ncols <= V", "old(mat).nrows <= xs@.len()",
+          "forall|x: R, p: &Vec<R>| #[trigger] jac_0.requires((x, p))",
+          "forall|x: R, p: &Vec<R>, y: Vec<R>| #[trigger] jac_0.ensures((x, p), y) ==> y@.len() == V && pv(y@) == MJ(x@, pv(p@))")
+    a.ens("pv(final(params)@) == pv(old(params)@)", "final(mat).nrows == old(mat).nrows && final(mat).ncols == old(mat).ncols",
+          "forall|r: int, c: int| #![trigger final(mat).at(r, c)] 0 <= r < old(mat).nrows && 0 <= c < old(mat).ncols ==> final(mat).at(r, c) == MJ(xs@[r]@, pv(old(params)@))[c]")
+    a.loop(1, iter="it", invariant=[
+        "params@ == old(params)@ && params@.len() == V", "mat.nrows == old(mat).nrows && mat.ncols == old(mat).ncols && mat.ncols <= V && mat.nrows <= xs@.len()", "jac == jac_0",
+        "forall|r: int, c: int| #![trigger mat.at(r, c)] 0 <= r < it.index@ && 0 <= c < mat.ncols ==> mat.at(r, c) == MJ(xs@[r]@, pv(old(params)@))[c]"])
+    a.loop(2, iter="it2", invariant=[
+        "params@ == old(params)@ && params@.len() == V", "mat.nrows == old(mat).nrows && mat.ncols == old(mat).ncols && mat.ncols <= V && mat.nrows <= xs@.len()", "jac == jac_0",
+        "row < mat.nrows && deriv@.len() == V && pv(deriv@) == MJ(xs@[row as int]@, pv(old(params)@))",
+        "forall|r: int, c: int| #![trigger mat.at(r, c)] ((0 <= r < row && 0 <= c < mat.ncols) || (r == row && 0 <= c < it2.index@)) ==> mat.at(r, c) == MJ(xs@[r]@, pv(old(params)@))[c]"])
     return [u]
 
 
 DECIDED = [
+    "jac_analytic (the Jacobian of curve_fit_jac): EVERY row r < rows holds the user's gradient at x_r, entry by entry; parameters untouched",
     "linear_fit: mismatched lengths -> Err; otherwise slope and intercept are exactly the closed-form solution of the normal equations over the sums Sx, Sy, Sxx, Sxy (loop invariants over recursive sum specs)",
     "NRA lemmas: those values satisfy both normal equations whenever m Sxx - Sx^2 != 0, and reproduce exactly-linear data (with the Verus lemma lemma_sums_of_linear_data); the sums, hence the fit, do not depend on the order of the points",
     "jac_finite_differences: parameters restored exactly, matrix shape kept, every entry equals the central difference (f(x_r, p + h e_c) - f(x_r, p - h e_c))/2h -- this obligation FAILS on the pinned tree and is the recorded finding (the code adds the samples)",
